@@ -12,6 +12,7 @@ All statements hold for every graph, every value type (tensors with non-finite e
 partial revert selects, it does not compute) and every finite history, with any number of clones.
 -/
 import LeaspyVerif.Lemmas.State
+import LeaspyVerif.Props.C15
 
 namespace LeaspyVerif.C01
 open LeaspyVerif.State
@@ -179,6 +180,134 @@ theorem set_refused {g : Graph V} (s : St V) {i : Nat} (h : g.n ≤ i ∨ g.kind
     · split
       · next hk => exact absurd hk h
       · rfl
+
+/-! ### bridge to C15: the tables of an accepted graph are well-formed -/
+
+private theorem pairwise_idxOf {l : List Nat} (hnd : l.Nodup) :
+    l.Pairwise (fun x y => l.idxOf x < l.idxOf y) := by
+  rw [List.pairwise_iff_getElem]
+  intro i j hi hj hij
+  rw [hnd.idxOf_getElem i hi, hnd.idxOf_getElem j hj]; exact hij
+
+private theorem reachP_of_reach {dg : Dag.Graph} {g : Graph V} (hn : g.n = dg.n)
+    (hpar : ∀ i < g.n, g.kind i = .linked → g.parents i = dg.anc i)
+    (hind : ∀ i < g.n, g.kind i ≠ .linked → dg.anc i = []) {a b : Nat} (h : Dag.Reach dg a b) :
+    ReachP g a b := by
+  have edge : ∀ {c b}, Dag.Edge dg c b → g.kind b = .linked ∧ c ∈ g.parents b := by
+    intro c b he
+    have hb : b < g.n := hn ▸ he.1
+    have hk : g.kind b = .linked := by
+      by_contra hne
+      have := hind b hb hne
+      have h2 := he.2
+      rw [this] at h2; exact absurd h2 (by simp)
+    exact ⟨hk, by rw [hpar b hb hk]; exact he.2⟩
+  induction h with
+  | single e => exact ReachP.single (edge e).1 (edge e).2
+  | tail _ e ih => exact ReachP.tail ih (edge e).1 (edge e).2
+
+/-- **The hypothesis `WF` is not an assumption about leaspy graphs**: for every graph accepted by the
+    dependency-graph construction (C15 model), the state graph that uses its order, descendant and
+    ancestor tables is well-formed.  (Linked nodes' parents are the graph's edges; independent nodes
+    have none.) -/
+theorem wf_of_build {dg : Dag.Graph} {r : Dag.Result} (hb : Dag.build dg = .ok r) (g : Graph V)
+    (hn : g.n = dg.n) (hord : g.order = r.order) (hdesc : g.desc = r.children)
+    (hanc : g.anc = r.ancestors)
+    (hpar : ∀ i < g.n, g.kind i = .linked → g.parents i = dg.anc i)
+    (hind : ∀ i < g.n, g.kind i ≠ .linked → dg.anc i = [])
+    (hout : ∀ i, g.n ≤ i → g.kind i ≠ .linked)
+    (hinit : ∀ i v, g.init i = some v → g.kind i ≠ .linked) : WF g := by
+  obtain ⟨hu, _, _, hac⟩ := (C15.accepts_iff dg).1 ⟨r, hb⟩
+  have hperm := C15.order_perm_nodes hb
+  have hnd : r.order.Nodup := hperm.nodup_iff.2 List.nodup_range
+  have hmem : ∀ i, i ∈ r.order ↔ i < dg.n := fun i => by rw [hperm.mem_iff, List.mem_range]
+  have hlt_of_linked : ∀ i, g.kind i = .linked → i < g.n := by
+    intro i hk; by_contra h; exact hout i (Nat.le_of_not_lt h) hk
+  have edge_of_parent : ∀ {p i}, g.kind i = .linked → p ∈ g.parents i → Dag.Edge dg p i := by
+    intro p i hk hp
+    have hi := hlt_of_linked i hk
+    exact ⟨hn ▸ hi, by rw [← hpar i hi hk]; exact hp⟩
+  have linked_of_edge : ∀ {c b}, Dag.Edge dg c b → g.kind b = .linked := by
+    intro c b he
+    by_contra hne
+    have := hind b (hn ▸ he.1) hne
+    have h2 := he.2
+    rw [this] at h2; exact absurd h2 (by simp)
+  -- position lemma in a nodup list split at `i`
+  have before : ∀ (l1 l2 : List Nat) (i p : Nat), r.order = l1 ++ i :: l2 → p ∈ r.order →
+      r.order.idxOf p < r.order.idxOf i → p ∈ l1 := by
+    intro l1 l2 i p hs hp hlt
+    by_contra hnp
+    rw [hs] at hnd
+    have hi1 : i ∉ l1 := fun h => (List.nodup_append.1 hnd).2.2 i h i (by simp) rfl
+    rw [hs, List.idxOf_append_of_notMem hnp, List.idxOf_append_of_notMem hi1] at hlt
+    simp only [List.idxOf_cons_self, Nat.add_zero] at hlt
+    omega
+  refine
+    { order_nodup := hord ▸ hnd
+      order_mem := fun i => by rw [hord, hmem, hn]
+      parents_before := ?_
+      anc_lt := ?_
+      anc_parents := ?_
+      anc_parents_before := ?_
+      anc_sound := ?_
+      desc_parents := ?_
+      desc_closed := ?_
+      desc_lt := ?_
+      desc_linked := ?_
+      desc_sound := ?_
+      not_self_desc := ?_
+      init_indep := hinit }
+  · intro l1 i l2 hs hk p hp
+    rw [hord] at hs
+    obtain ⟨hpm, _, hlt⟩ := C15.order_topological hb (Dag.Reach.single (edge_of_parent hk hp))
+    exact before l1 l2 i p hs hpm hlt
+  · intro i a ha
+    rw [hanc] at ha
+    rw [hn]; exact ((C15.ancestors_exact hb a i).1 ha).lt_left hu
+  · intro i hk p hp
+    rw [hanc]
+    exact (C15.ancestors_exact hb p i).2 (Dag.Reach.single (edge_of_parent hk hp))
+  · intro i l1 a l2 hs hk p hp
+    rw [hanc] at hs
+    have hsub := C15.ancestors_in_order hb i
+    have hpw := (pairwise_idxOf hnd).sublist hsub
+    have ha_anc : a ∈ r.ancestors i := by rw [hs]; simp
+    have hra := (C15.ancestors_exact hb a i).1 ha_anc
+    have hep := edge_of_parent hk hp
+    have hp_anc : p ∈ r.ancestors i :=
+      (C15.ancestors_exact hb p i).2 (Dag.Reach.trans (Dag.Reach.single hep) hra)
+    obtain ⟨_, _, hlt⟩ := C15.order_topological hb (Dag.Reach.single hep)
+    rw [hs] at hp_anc hpw
+    rcases List.mem_append.1 hp_anc with h | h
+    · exact h
+    · rcases List.mem_cons.1 h with h | h
+      · subst h; omega
+      · have := (List.pairwise_cons.1 (List.pairwise_append.1 hpw).2.1).1 p h
+        omega
+  · intro i a ha
+    rw [hanc] at ha
+    exact reachP_of_reach hn hpar hind ((C15.ancestors_exact hb a i).1 ha)
+  · intro i c hc hk hi
+    rw [hdesc]
+    exact (C15.children_exact hb i c).2 (Dag.Reach.single (edge_of_parent hk hi))
+  · intro i d c hd hc hk hdc
+    rw [hdesc] at hd ⊢
+    exact (C15.children_exact hb i c).2
+      (Dag.Reach.tail ((C15.children_exact hb i d).1 hd) (edge_of_parent hk hdc))
+  · intro i d hd
+    rw [hdesc] at hd
+    rw [hn]; exact ((C15.children_exact hb i d).1 hd).lt_right
+  · intro i d hd
+    rw [hdesc] at hd
+    obtain ⟨c, he, _⟩ := Dag.reach_iff_last.1 ((C15.children_exact hb i d).1 hd)
+    exact linked_of_edge he
+  · intro i d hd
+    rw [hdesc] at hd
+    exact reachP_of_reach hn hpar hind ((C15.children_exact hb i d).1 hd)
+  · intro i hi
+    rw [hdesc] at hi
+    exact hac i ((C15.children_exact hb i i).1 hi)
 
 /-! ### non-vacuity: a diamond with a late root, values are integers, two "individuals" as pairs -/
 
